@@ -27,3 +27,7 @@ def run(tier):
     chk.assumptions = ["known finding: copies share the original's built-in generator (known_findings.txt)",
                        "feature-configuration independence is C15's subject; here one full-feature configuration per compiler"]
     return chk
+
+
+def replay(path):
+    return en.replay(path)
